@@ -112,6 +112,24 @@ def move_import_agreement(ctx: Ctx, col: Collector) -> None:
                                          *([] if same_source else ["the package a declaration is moved to is chosen among `node.reexported_by` (re-export keys found along its qualified name), the package its imports name among all "
                                                                    "re-export keys that match its *name*: for a chained re-export (`mypkg/__init__: from .sub import Widget`, `mypkg/sub/__init__: from ._widget import Widget`) "
                                                                    "the class is declared in `mypkg.sub` and imported `from mypkg import Widget`"]))
+    # (6) "defined in this module" suppresses the import; a declaration that was moved to a re-exporting package is not declared here any more
+    consults_move = any(t in ast.unparse(afi.node) for t in ("reexported_by", "_has_node_shorter_reexport", "reexport_modules"))
+    (col.ok if consults_move else col.bad)(RULE, f"{GEN}::{GENCLS}._add_to_imports::same-module-suppression-knows-the-move", repo.loc(GEN, afi.node),
+                                           "the same-module test looks at where the declaration was written" if consults_move else "the import is suppressed for every qualified name below the current module id; the move is not consulted",
+                                           *([] if consults_move else ["a class that is moved to a re-exporting package is still treated as 'declared here' by its defining module: `mypkg/sub/__init__.py: from mypkg.sub.deep.impl import Node` "
+                                                                       "moves `class Node` to package mypkg.sub, and `class Tree: root: Node` in mypkg/sub/deep/impl.py uses Node without declaring or importing it"]))
+    # (7) a module that is relocated as a whole (`from .core import gears`) takes its classes with it
+    from ..core.ctx import GENSTUBS as _GS
+    gsd = repo.function(_GS, "generate_stub_data")
+    relocates_modules = any(isinstance(n, ast.Call) and getattr(n.func, "id", "") == "_get_shortest_public_reexport" and any(k.arg == "is_module" and isinstance(k.value, ast.Constant) and k.value.value is True for k in n.keywords)
+                            for n in ast.walk(gsd.node))
+    imports_follow = any(isinstance(n, ast.Call) and getattr(n.func, "id", "") == "_get_shortest_public_reexport" and any(k.arg == "is_module" and not (isinstance(k.value, ast.Constant) and k.value.value is False) for k in n.keywords)
+                         for n in ast.walk(afi.node))
+    good7 = (not relocates_modules) or imports_follow
+    (col.ok if good7 else col.bad)(RULE, f"{GEN}::{GENCLS}._add_to_imports::module-relocation-reflected", repo.loc(GEN, afi.node),
+                                   "imports follow relocated modules" if good7 else "generate_stub_data relocates whole modules (is_module=True); _add_to_imports only asks for re-exported classes (is_module=False)",
+                                   *([] if good7 else ["the stub of a module re-exported as a whole (`mypkg/__init__.py: from .core import gears`) is written as `package mypkg` (mypkg/gears.sdsstub), while imports of its "
+                                                       "classes keep the module path (`from mypkg.core.gears import Gear`): no stub declares package mypkg.core.gears"]))
     for fi, n, k in mkeys:
         same = k == skey
         (col.ok if same else col.bad)(RULE, f"{VISITOR}::{fi.qualname}::reexported_by-order", repo.loc(VISITOR, n), f"re-exporters ordered by {k}; import candidates ordered by {skey}",
